@@ -101,7 +101,7 @@ theorem run_class {n d : Nat} {k : Kind} {cs : AList JStr Class} {c : Class}
       = some { depth := 1, kind := k, classes := cs ++ [(key, { names := c.names, doc := none, fields := [], methods := [] })] } := by
     have hlt : ¬ d < 0 := by omega
     simp only [step, hlt, if_false, if_true]
-    simp only [addClass, intoNames_cells hc.1.1.1, hname, insertNew_new _ _ _ hnew]
+    simp only [addClass, intoNames_cells hc.1.1, hname, insertNew_new _ _ _ hnew]
     rfl
   rw [run_cons hstep]
   -- the comment
@@ -112,14 +112,13 @@ theorem run_class {n d : Nat} {k : Kind} {cs : AList JStr Class} {c : Class}
     cases hdd : c.doc with
     | none => rfl
     | some dd =>
-      have hb := docOk_noBsN (hdd ▸ hc.1.1.2)
       simp only [docT, List.cons_append, List.nil_append]
       apply run_cons
       have h1 : ¬ C_ = F_ := by decide
       have h2 : ¬ C_ = M_ := by decide
       simp only [step, Nat.lt_irrefl, if_false, h1, h2, if_true]
       rw [hctx]
-      simp only [classDoc, setDoc_doc 1 dd hb]
+      simp only [classDoc, setDoc_doc 1 dd]
       rfl
   rw [List.append_assoc, hdoc]
   -- the fields
